@@ -6,8 +6,10 @@ Open Scope N_scope.
 
 (* the driver's shard is ScyllaDB's: bias by 2^63, shift left by the ignored bits, multiply by
    the shard count, take the high 64 bits *)
-Theorem C11_shard_spec : forall n msb t, shard_of n msb t = spec_shard_of n msb t.
-Proof. exact shard_of_spec. Qed.
+(* (msb <= 63 is the property's quantifier: for msb >= 64 the Rust shift overflows -- debug panic,
+   release masks the amount -- and the model's shl64 is not the code any more) *)
+Theorem C11_shard_spec : forall n msb t, msb <= 63 -> shard_of n msb t = spec_shard_of n msb t.
+Proof. intros n msb t _. exact (shard_of_spec n msb t). Qed.
 
 Theorem C11_shard_lt : forall n msb t, 0 < n -> shard_of n msb t < n.
 Proof. exact shard_of_lt. Qed.
@@ -44,6 +46,26 @@ Proof. exact ports_empty_iff. Qed.
 Theorem C11_draw_none_iff : forall n s lo hi, 0 < n -> s < n -> lo <= hi -> hi <= u16_max ->
   (forall idx, draw_port n s lo hi idx = None) <-> (forall p, lo <= p <= hi -> p mod n <> s).
 Proof. exact draw_port_none_iff. Qed.
+
+(* a draw with an in-range index (the code draws idx < count) always yields a port *)
+Theorem C11_draw_some : forall n s lo hi idx,
+  (idx < List.length (ports_for_shard n s lo hi))%nat -> exists p, draw_port n s lo hi idx = Some p.
+Proof. exact draw_port_some. Qed.
+
+(* the property predicates the driver evaluates on the implementation's output when the
+   acceptor rejects it (they decide viol vs diff) say exactly what the property says *)
+Theorem C11_prop_iter_ok_iff : forall n s lo hi obs,
+  prop_iter_ok n s lo hi obs = true <-> Permutation obs (spec_ports n s lo hi) /\ NoDup obs.
+Proof. exact prop_iter_ok_iff. Qed.
+
+Theorem C11_prop_draw_ok_iff : forall n s lo hi obs,
+  0 < n -> s < n -> lo <= hi -> hi <= u16_max ->
+  prop_draw_ok n s lo hi obs = true <->
+  match obs with
+  | Some p => lo <= p <= hi /\ p mod n = s
+  | None => forall p, lo <= p <= hi -> p mod n <> s
+  end.
+Proof. exact prop_draw_ok_iff. Qed.
 
 (* the acceptors the correspondence check evaluates on the implementation's outputs are sound
    (accepted => property) and complete for the model (every oracle value is accepted) *)
@@ -93,7 +115,23 @@ Example C11_ex_parse :
   parse_shard_info (Some ["0"%string]) (Some ["0"%string]) (Some ["12"%string]) = Err ZeroShards.
 Proof. repeat split; vm_compute; reflexivity. Qed.
 
+(* rejecting examples: the specification and the predicates refuse wrong outputs *)
+Example C11_ex_reject :
+  prop_iter_ok 5 3 65520 65535 [65523; 65528] = false /\
+  prop_iter_ok 5 3 65520 65535 [65523; 65528; 65528] = false /\
+  prop_iter_ok 5 3 65520 65535 [65533; 65523; 65528] = true /\
+  prop_draw_ok 5 3 65520 65535 (Some 65524) = false /\
+  prop_draw_ok 5 3 65520 65535 None = false /\
+  prop_draw_ok 100 37 65500 65535 None = true /\
+  accept_iter 5 3 65520 65535 [65528; 65523; 65533] = false /\
+  spec_ports 5 3 65520 65535 = [65523; 65528; 65533] /\
+  spec_shard_of 3 0 (-3074457345618258602)%Z = 1.
+Proof. repeat split; vm_compute; reflexivity. Qed.
+
 Print Assumptions C11_shard_spec.
+Print Assumptions C11_draw_some.
+Print Assumptions C11_prop_iter_ok_iff.
+Print Assumptions C11_prop_draw_ok_iff.
 Print Assumptions C11_shard_lt.
 Print Assumptions C11_shard_mono.
 Print Assumptions C11_ports.
